@@ -26,7 +26,7 @@ def new_spec():
 
 def gen_repo(rng, n_targets=(3, 12), n_pkgs=(1, 4), allow_dir=True, allow_filegroup=True, allow_text=True,
              dep_density=0.5, use_defs_p=0.3, max_fanin=6, binary_p=0.1, env_p=0.0, multi_out_p=0.25,
-             require_provide_p=0.0, test_p=0.0):
+             require_provide_p=0.0, test_p=0.0, deps_attr_p=0.15):
     spec = new_spec()
     npk = rng.rng(*n_pkgs)
     pkgs = rng.sample(PKG_POOL, npk)
@@ -35,6 +35,7 @@ def gen_repo(rng, n_targets=(3, 12), n_pkgs=(1, 4), allow_dir=True, allow_filegr
         spec["pkgs"][p] = {"files": {}, "targets": [], "use_defs": False}
     if rng.chance(use_defs_p):
         spec["defs"] = True
+        spec["defs_chain"] = rng.chance(0.6)
         for p in pkgs:
             if rng.chance(0.5):
                 spec["pkgs"][p]["use_defs"] = True
@@ -77,7 +78,12 @@ def gen_repo(rng, n_targets=(3, 12), n_pkgs=(1, 4), allow_dir=True, allow_filegr
                         if names & exported:
                             continue
                         exported |= names
-                    t["srcs"].append("t:" + label(dp, dt["name"]))
+                    if kind == "genrule" and rng.chance(deps_attr_p):
+                        t["deps"].append(label(dp, dt["name"]))   # a dependency that is not a source
+                    else:
+                        t["srcs"].append("t:" + label(dp, dt["name"]))
+                if kind == "genrule" and spec.get("defs") and rng.chance(0.25):
+                    t["srcs"].append("t://defs:gen")                 # the subincluded target as an ordinary dependency
             if kind == "filegroup":
                 if not t["srcs"]:
                     (dp, dt) = rng.choice(all_t)
@@ -304,8 +310,16 @@ def render_files(spec, log):
     out[".plzconfig"] = ("\n".join(cfg) + "\n").encode()
     if spec.get("defs"):
         lab = "//defs:gen"
-        out["defs/BUILD"] = ('genrule(\n    name = "gen",\n    srcs = ["d.build_defs.in"],\n    outs = ["g.build_defs"],\n'
-                             '    cmd = %s,\n    visibility = ["PUBLIC"],\n)\n' % asp_str('echo "S %s" >> %s; cat $SRCS > $OUT; echo "E %s ok" >> %s' % (lab, log, lab, log))).encode()
+        pre = ""
+        srcs = '["d.build_defs.in"]'
+        if spec.get("defs_chain"):
+            # the subincluded target has a dependency of its own
+            plab = "//defs:pre"
+            pre = ('genrule(\n    name = "pre",\n    outs = ["pre.out"],\n    cmd = %s,\n    visibility = ["PUBLIC"],\n)\n\n'
+                   % asp_str('echo "S %s" >> %s; echo pre %s > $OUT; echo "E %s ok" >> %s' % (plab, log, spec.get("defs_salt", ""), plab, log)))
+            srcs = '["d.build_defs.in", ":pre"]'
+        out["defs/BUILD"] = (pre + 'genrule(\n    name = "gen",\n    srcs = %s,\n    outs = ["g.build_defs"],\n'
+                             '    cmd = %s,\n    visibility = ["PUBLIC"],\n)\n' % (srcs, asp_str('echo "S %s" >> %s; cat $PKG_DIR/d.build_defs.in > $OUT; echo "E %s ok" >> %s' % (lab, log, lab, log)))).encode()
         out["defs/d.build_defs.in"] = (DEFS_SRC + "# %s\n" % spec.get("defs_salt", "")).encode()
     for p in sorted(spec["pkgs"]):
         pk = spec["pkgs"][p]
@@ -408,8 +422,10 @@ def closure(spec, labels):
             continue
         ft = find_target(spec, l)
         if ft is None:
-            if l == "//defs:gen" and spec.get("defs"):
+            if l in ("//defs:gen", "//defs:pre") and spec.get("defs"):
                 seen.append(l)
+                if l == "//defs:gen" and spec.get("defs_chain"):
+                    stack.append("//defs:pre")
             continue
         seen.append(l)
         stack.extend(direct_deps(spec, ft[0], ft[1]))
@@ -424,6 +440,8 @@ def expand_request(spec, req):
             out += [label(p, t["name"]) for p, t in all_targets(spec)]
             if spec.get("defs"):
                 out.append("//defs:gen")
+                if spec.get("defs_chain"):
+                    out.append("//defs:pre")
         elif r.endswith("/..."):
             base = r[2:-4]
             out += [label(p, t["name"]) for p, t in all_targets(spec) if p == base or p.startswith(base + "/")]
